@@ -136,7 +136,9 @@ importation target `q`, and was not an `import_internally:` label to begin with,
 string whose membership in `internal` was tested, and it is not the bare `".py"`. -/
 theorem relabel_target {internal : List Name} {n q : Name}
     (hraw : dropPrefix? sInternalPrefix n = none)
-    (h : internalTarget? (relabelName internal n) = some q) : q ∈ internal ∧ q ≠ sPy := by
+    (h : internalTarget? (relabelName internal n) = some q) :
+    q ∈ internal ∧ q ≠ sPy ∧ ∃ rest, n = sImport ++ cColon :: rest ∧ takeNoColon rest ≠ [] ∧
+      q = rep (takeNoColon rest) ++ sPy := by
   have hnone : internalTarget? n = none := by
     unfold internalTarget?
     have : dropPrefix? (sImport ++ sInternally ++ [cColon]) n = none := hraw
@@ -184,9 +186,13 @@ theorem relabel_target {internal : List Name} {n q : Name}
             rw [hg] at h hm
             simp only [Option.some.injEq] at h
             rw [← h]
-            refine ⟨hm, fun e => ?_⟩
-            have := congrArg List.length e
-            simp [sPy] at this
+            refine ⟨hm, fun e => ?_, rest, hn, ?_, by rw [hs, hg]⟩
+            · have := congrArg List.length e
+              simp [sPy] at this
+            · intro he
+              rw [hs] at he
+              rw [he] at hg
+              simp [rep, replaceChar] at hg
     · rw [if_neg hm, hnone] at h; cases h
 
 /-- **Every direct internal import is resolved** — by construction since fix 0c1b93c:
@@ -215,5 +221,51 @@ theorem resolved_all (progs : List Prog) : Resolved progs := by
         rw [← ht]; exact hq
       · cases ht
     · cases ht
+
+/-! ## The direct-importation relation, from the raw labels -/
+
+/-- No raw label already has the `import_internally:` form (spec.md has no such feature; only a hint
+comment can introduce one). -/
+def NoRawInternal (progs : List Prog) : Prop :=
+  ∀ p ∈ progs, ∀ l ∈ p.labels, dropPrefix? sInternalPrefix l.name = none
+
+instance (progs : List Prog) : Decidable (NoRawInternal progs) := by
+  unfold NoRawInternal; infer_instance
+
+theorem dropPrefix?_append (p r : Name) : dropPrefix? p (p ++ r) = some r := by
+  induction p with
+  | nil => rfl
+  | cons a t ih => simp [dropPrefix?, ih]
+
+theorem tweak_import (rest : Name) :
+    tweakFirstColon (sImport ++ cColon :: rest) = sImport ++ sInternally ++ cColon :: rest := by
+  simp [tweakFirstColon, sImport, cColon]
+
+theorem rep_sImport : rep sImport = sImport := by decide
+
+theorem rep_eq_nil {s : Name} : rep s = [] ↔ s = [] := by
+  simp [rep, replaceChar]
+
+/-- An `import:M` / `import:M:name` label whose module, as a path, is internal is relabelled into a label
+naming exactly that path. -/
+theorem internalTarget_of_import {internal : List Name} {rest : Name}
+    (hne : takeNoColon rest ≠ []) (hin : rep (takeNoColon rest) ++ sPy ∈ internal) :
+    internalTarget? (relabelName internal (sImport ++ cColon :: rest)) =
+      some (rep (takeNoColon rest) ++ sPy) := by
+  unfold relabelName
+  rw [searchImport?_import]
+  simp only
+  rw [if_pos hin, tweak_import]
+  show internalTarget? (rep (sImport ++ sInternally ++ cColon :: rest)) = _
+  rw [rep_append, rep_append, rep_cons_colon, rep_sInternally, rep_sImport]
+  unfold internalTarget?
+  have : sImport ++ sInternally ++ cColon :: rep rest = (sImport ++ sInternally ++ [cColon]) ++ rep rest := by
+    simp
+  rw [this, dropPrefix?_append]
+  simp only
+  rw [takeNoColon_rep]
+  cases hg : rep (takeNoColon rest) with
+  | nil => exact absurd (rep_eq_nil.mp hg) hne
+  | cons x xs => rfl
 
 end Paroxy.DB
